@@ -58,40 +58,8 @@ theorem no_cross_kill_step (cfg : Cfg α) (s : State α) (c : Cid) (f : C2R α) 
     ∃ y', (recvFrame cfg s c f).conns c' = some y' ∧
       y'.owner = y.owner ∧ y'.cancelled = y.cancelled ∧ y'.exited = y.exited ∧ y'.msgQ = y.msgQ ∧
       (y'.packetQ = y.packetQ ∨
-        ∃ src d, y'.packetQ = y.packetQ ++ [(src, d)] ∧ sendable cfg d = true) := by
-  refine ⟨(recvFrame_sameCore cfg s c f).entries, ?_⟩
-  have same : ∃ y', s.conns c' = some y' ∧ y'.owner = y.owner ∧ y'.cancelled = y.cancelled ∧
-      y'.exited = y.exited ∧ y'.msgQ = y.msgQ ∧
-      (y'.packetQ = y.packetQ ∨ ∃ src d, y'.packetQ = y.packetQ ++ [(src, d)] ∧ sendable cfg d = true) :=
-    ⟨y, hy, rfl, rfl, rfl, rfl, Or.inl rfl⟩
-  unfold RelayRegistry.recvFrame
-  split
-  · exact same
-  · split
-    · exact same
-    · split
-      · rename_i x _ _ dst d
-        unfold sendPacket
-        split
-        · exact same
-        · rename_i hs
-          split
-          · exact same
-          · rename_i e _
-            cases ht : s.conns e.active with
-            | none => exact same
-            | some z =>
-              dsimp only
-              split
-              · simp only [emit_conns, setSentTo_conns, setConn_conns]
-                split
-                · subst_vars
-                  rw [ht] at hy; cases hy
-                  exact ⟨_, rfl, rfl, rfl, rfl, rfl, Or.inr ⟨_, _, rfl, by simpa using hs⟩⟩
-                · exact same
-              · exact same
-      · exact same
-      · exact same
+        ∃ src d, y'.packetQ = y.packetQ ++ [(src, d)] ∧ sendable cfg d = true) :=
+  recvFrame_spares_others cfg s c f c' y hy
 
 /-- **No cross kill, along histories.**  After any history, a frame handled for `c` leaves
 every other connection alive and served, and the state after it again satisfies the queue
@@ -122,27 +90,8 @@ the actor's exit and its unregistration leave every other connection's record in
 running, uncancelled, with its packet queue (only message queues may get a notice). -/
 theorem sender_exit_spares_others (cfg : Cfg α) (s : State α) (c c' : Cid) (hne : c' ≠ c) (y : Conn α)
     (hy : s.conns c' = some y) :
-    ∃ y', (unregister cfg (actorExit s c) c).conns c' = some y' ∧ SameButMsgQ y y' := by
-  have h1 : (actorExit s c).conns c' = some y := by
-    unfold RelayRegistry.actorExit
-    split
-    · exact hy
-    · simp [hne, hy]
-  generalize actorExit s c = t at h1
-  unfold RelayRegistry.unregister
-  split
-  · exact ⟨y, h1, SameButMsgQ.refl y⟩
-  · rename_i x hx
-    have h2 : (setConn t c none).conns c' = some y := by simp [hne, h1]
-    generalize setConn t c none = u at h2
-    unfold unregisterReg
-    split
-    · exact ⟨y, h2, SameButMsgQ.refl y⟩
-    · split
-      · split
-        · exact trySendHealth_spares _ _ _ _ _ _ (by simpa using h2)
-        · exact ⟨y, by simpa using h2, SameButMsgQ.refl y⟩
-      · exact ⟨y, by simpa using h2, SameButMsgQ.refl y⟩
+    ∃ y', (unregister cfg (actorExit s c) c).conns c' = some y' ∧ SameButMsgQ y y' :=
+  exit_unregister_spares_others cfg s c c' hne y hy
 
 /-- What the forwarder does with an un-forwardable packet once it IS queued (the defect's
 mechanism; unreachable since the repair by `queued_packets_forwardable`): the RECEIVING
